@@ -216,6 +216,20 @@ def parquet_component(ck, rd, rng, tier):
             items.append((f"{name} truncated to {foot0 + rng.below(meta_len + 8)} bytes", data[:foot0 + rng.below(meta_len + 8)], ""))
             k = rng.below(len(data))
             items.append((f"{name} truncated to {k} bytes", data[:k], ""))
+    # runs of continuation bytes / zeros: varints that never end (F62: thrift varint longer than 10 bytes), huge lengths, zeroed headers
+    for rel in SMALL + LARGE:
+        path = os.path.join(TESTDATA, rel)
+        if not os.path.exists(path):
+            continue
+        data = open(path, "rb").read()
+        name = os.path.basename(rel)
+        meta_len = int.from_bytes(data[-8:-4], "little")
+        foot0 = max(0, len(data) - 8 - meta_len)
+        for _ in range(12 if tier == "quick" else 150):
+            p = foot0 + rng.below(max(1, meta_len)) if rng.chance(2, 3) else rng.below(len(data))
+            k = rng.pick([2, 5, 10, 11, 12, 20])
+            fill = rng.pick([0xFF, 0x80, 0x81, 0x00])
+            items.append((f"{name} bytes {p}..{p + k} ={fill:02x}", data[:p] + bytes([fill]) * k + data[p + k:], ""))
     ck.note(comp, "mutants", len(items))
     for i in range(0, len(items), 25):
         rd.run_batch(comp, items[i:i + 25])
